@@ -32,7 +32,7 @@ Definition vres := res val_error.
 
 (** Resource budget of the model (C09's "modest resource bounds"): array indices and
     string repetition beyond it are [OverBudget], not modelled further. *)
-Definition size_budget : N := 1048576.
+Definition size_budget : N := 65536.
 
 (** * Dictionary keys *)
 
